@@ -1744,10 +1744,9 @@ theorem processTree_settled {P : Params} {init : Fs} {last : Cfg} {st : State} (
     (hI : Inv P init last st) (hS : Synced P st) (hc : st.hasCreated = false)
     (hh : st.lastHash = some (P.configHash last) ∨ (st.lastHash = none ∧ last = st.cfg))
     (hF13 : ¬ (st.lastHash = some (P.configHash st.cfg) ∧ st.cfg ≠ last))
-    (hF11 : notDoneCount (configStep P st).nodes = 0 → (configStep P st).removeFiles = [])
-    (hsep : notDoneCount (configStep P st).nodes ≠ 0 → ∀ q, q ∈ (configStep P st).removeFiles →
+    (hsep : ∀ q, q ∈ (configStep P st).removeFiles →
       ∀ j it, (configStep P st).item? j = some it → startsWith it.output q = false)
-    (hE : notDoneCount (configStep P st).nodes ≠ 0 → ∀ j it, (configStep P st).item? j = some it →
+    (hE : ∀ j it, (configStep P st).item? j = some it →
       it.status.isDone = false →
       (P.T (configStep P st).cfg (alookup (configStep P st).fs) it.source).out = none →
       alookup (configStep P st).fs it.output = none) :
@@ -1760,10 +1759,17 @@ theorem processTree_settled {P : Params} {init : Fs} {last : Cfg} {st : State} (
   simp only
   by_cases ht : notDoneCount (configStep P st).nodes = 0
   · simp only [ht, if_true]
-    refine ⟨configStep P st, rfl, ⟨by rw [h5]; exact h1, hS1, ?_, hF11 ht, by rw [h6]; exact hc,
-      by rw [h7, h5]⟩, h5⟩
-    intro j it hj
-    exact notDoneCount_zero ht j it hj
+    have hIc : Inv P init (configStep P st).cfg (configStep P st) := by rw [h5]; exact h1
+    obtain ⟨k1, k2, k3, k4⟩ := cleanFiles_inv hWF hIc hsep
+    refine ⟨cleanFiles (configStep P st), rfl, ⟨k1, ?_, ?_, k2, ?_, ?_⟩, h5⟩
+    · intro p hp hin hlua
+      rw [k3 p (startsWith_output_of_input hWF hin)] at hp
+      exact hS1 p hp hin hlua
+    · intro j it hj; rw [k4] at hj; exact notDoneCount_zero ht j it hj
+    · show (configStep P st).hasCreated = false
+      rw [h6]; exact hc
+    · show (configStep P st).lastHash = some (P.configHash (configStep P st).cfg)
+      rw [h7, h5]
   · simp only [ht, if_false]
     have hloop : workLoop P (notDoneCount (configStep P st).nodes) 1 (configStep P st)
         = .ok (passState P (configStep P st)) := by
@@ -1773,7 +1779,7 @@ theorem processTree_settled {P : Params} {init : Fs} {last : Cfg} {st : State} (
     rw [hloop]
     simp only
     have hIc : Inv P init (configStep P st).cfg (configStep P st) := by rw [h5]; exact h1
-    obtain ⟨g1, g2, g3, g4⟩ := pass_inv hWF hIc (hE ht)
+    obtain ⟨g1, g2, g3, g4⟩ := pass_inv hWF hIc hE
     have hsep2 : ∀ q, q ∈ (passState P (configStep P st)).removeFiles → ∀ j it,
         (passState P (configStep P st)).item? j = some it → startsWith it.output q = false := by
       intro q hq j it hj
@@ -1783,7 +1789,7 @@ theorem processTree_settled {P : Params} {init : Fs} {last : Cfg} {st : State} (
       | some it0 =>
         simp [hcs] at hj; subst hj
         rw [advOf_output]
-        exact hsep ht q hq j it0 hcs
+        exact hsep q hq j it0 hcs
     obtain ⟨k1, k2, k3, k4⟩ := cleanFiles_inv hWF g1 hsep2
     refine ⟨cleanFiles (passState P (configStep P st)), rfl, ⟨?_, ?_, ?_, k2, ?_, ?_⟩, ?_⟩
     · exact k1
@@ -2579,27 +2585,17 @@ theorem preProcess_facts {P : Params} {init : Fs} {last : Cfg} {st : State} (hG 
     exact h3 p hp hin hlua
 
 theorem regionAfterConfig_none {P : Params} {st1 : State} (h : regionAfterConfig P st1 = none) :
-    (notDoneCount st1.nodes = 0 → st1.removeFiles = []) ∧
-    (notDoneCount st1.nodes ≠ 0 → outputClash st1 = false ∧ outputUnder st1 = false ∧ failsOverOutput P st1 = false) := by
+    outputClash st1 = false ∧ outputUnder st1 = false ∧ failsOverOutput P st1 = false := by
   unfold regionAfterConfig at h
-  by_cases h0 : notDoneCount st1.nodes = 0
-  · refine ⟨fun _ => ?_, fun hne => absurd h0 hne⟩
-    simp only [h0, beq_self_eq_true, if_true] at h
-    cases he : st1.removeFiles with
-    | nil => rfl
-    | cons a b => rw [he] at h; simp at h
-  · refine ⟨fun h' => absurd h' h0, fun _ => ?_⟩
-    have : (notDoneCount st1.nodes == 0) = false := by simp [h0]
-    simp only [this, Bool.false_eq_true, if_false] at h
-    cases hB : outputClash st1 with
-    | true => rw [hB] at h; simp at h
+  cases hB : outputClash st1 with
+  | true => rw [hB] at h; simp at h
+  | false =>
+    cases hC : outputUnder st1 with
+    | true => rw [hB, hC] at h; simp at h
     | false =>
-      cases hC : outputUnder st1 with
-      | true => rw [hB, hC] at h; simp at h
-      | false =>
-        cases hD : failsOverOutput P st1 with
-        | true => rw [hB, hC, hD] at h; simp at h
-        | false => exact ⟨rfl, rfl, rfl⟩
+      cases hD : failsOverOutput P st1 with
+      | true => rw [hB, hC, hD] at h; simp at h
+      | false => exact ⟨rfl, rfl, rfl⟩
 
 theorem step_process_settled {P : Params} {init : Fs} {last : Cfg} {st : State} (hWF : WF P init)
     (hG : Good P init last st) (hreg : regionOfProcess P last st = none) :
@@ -2619,12 +2615,11 @@ theorem step_process_settled {P : Params} {init : Fs} {last : Cfg} {st : State} 
     rw [this] at hA; cases hA
   rw [hA] at hreg
   simp only [Bool.false_eq_true, if_false] at hreg
-  obtain ⟨r1, r2⟩ := regionAfterConfig_none hreg
+  obtain ⟨hB, hC, hD⟩ := regionAfterConfig_none hreg
   have hres := processTree_settled (P := P) (init := init) (last := last) (st := preProcess P st) hWF p1 p2 p3
-    (Or.inl (p4.trans hH)) hF13 r1
+    (Or.inl (p4.trans hH)) hF13
     (by
-      intro hne q hq j it hj
-      obtain ⟨hB, hC, _⟩ := r2 hne
+      intro q hq j it hj
       unfold outputClash at hB
       unfold outputUnder at hC
       have b1 := any_false_item (any_false_mem hB hq) hj
@@ -2633,8 +2628,7 @@ theorem step_process_settled {P : Params} {init : Fs} {last : Cfg} {st : State} 
       have hneq : it.output ≠ q := by simpa using b1
       exact strictlyUnder_false_of c1 hneq)
     (by
-      intro hne j it hj hnd hout
-      obtain ⟨_, _, hD⟩ := r2 hne
+      intro j it hj hnd hout
       unfold failsOverOutput at hD
       have d1 := any_false_item hD hj
       simp only [hnd, hout, Bool.not_false, Option.isNone_none, Bool.and_self, Bool.true_and] at d1
@@ -2667,19 +2661,13 @@ theorem start_settled {P : Params} {init : Fs} (cfg : Cfg) (hWF : WF P init) :
     (by rw [c2.hasCreated]; rfl) (Or.inr ⟨by rw [c2.lastHash]; rfl, by rw [c2.cfg]; rfl⟩)
     (by rintro ⟨h, _⟩; rw [c2.lastHash] at h; cases h)
     (by
-      intro _
-      obtain ⟨_, _, _, g4, _⟩ := configStep_inv c1
-        (Or.inr ⟨by rw [c2.lastHash]; rfl, by rw [c2.cfg]; rfl⟩)
-        (by rintro ⟨h, _⟩; rw [c2.lastHash] at h; cases h)
-      rw [g4, c2.removeFiles]; rfl)
-    (by
-      intro _ q hq
+      intro q hq
       obtain ⟨_, _, _, g4, _⟩ := configStep_inv c1
         (Or.inr ⟨by rw [c2.lastHash]; rfl, by rw [c2.cfg]; rfl⟩)
         (by rintro ⟨h, _⟩; rw [c2.lastHash] at h; cases h)
       rw [g4, c2.removeFiles] at hq; cases hq)
     (by
-      intro _ j it hj _ _
+      intro j it hj _ _
       obtain ⟨g1, g2, _, _, _⟩ := configStep_inv c1
         (Or.inr ⟨by rw [c2.lastHash]; rfl, by rw [c2.cfg]; rfl⟩)
         (by rintro ⟨h, _⟩; rw [c2.lastHash] at h; cases h)
